@@ -811,5 +811,5 @@ func TestC03(t *testing.T) {
 	c := NewCtx(t, "C03")
 	nm := c03NearMisses()
 	RunEnum(c, t, "near-misses", len(nm), func(i int) c03Case { return nm[i] }, c03Check, true)
-	RunRapid(c, t, Sub[c03Case]{Kind: "short-long", Quick: 5000, Thorough: 150_000, Gen: genC03, Check: c03Check})
+	RunRapid(c, t, Sub[c03Case]{Kind: "short-long", Quick: 20000, Thorough: 150_000, Gen: genC03, Check: c03Check})
 }
